@@ -23,7 +23,8 @@ BASES = [
     "http://u@example.com/a.b.c", "http://:p@example.com/.hidden", "http://bücher.example/straße", "ws://h:0/",
     "http://[fe80::1%25eth0]:80/", "http://1.2.3.4/a/", "http://example.com./a", "http://example.com/a;p=1/b;q",
     "http://example.com/%2E%2E/x", "http://example.com/a+b%2Bc?d+e=%2B", "http://h/a?", "http://h/a/..", "svn+ssh://h/r",
-    "http://h/a%2Fb", "http://h/a%25b/c%2Fd", "http://h/a%2fb", "http://example.com.:8080/path", "http://[fe80::1%25Ethernet%202]:8080/x",
+    "http://h/a%2Fb", "http://h/a%25b/c%2Fd", "http://h/a%2fb", "http://alice:pw@v2.example.com:8080/p", "http://u@vad.example.org/",
+    "http://example.com:443/x", "ws://u@example.com:443/", "https://example.com:80/", "foo://user:pw@:8080/path", "//user@/path", "http://example.com.:8080/path", "http://[fe80::1%25Ethernet%202]:8080/x",
 ]
 
 
@@ -34,6 +35,9 @@ def text(rnd, maxtok=3, surrogate_p=0.0, pool=None):
     if surrogate_p and rnd.random() < surrogate_p:
         i = rnd.randrange(len(s) + 1)
         s = s[:i] + rnd.choice(SURR) + s[i:]
+    if s and rnd.random() < 0.04:          # a line terminator at either END of an otherwise ordinary text ('$' / '^' anchored tests)
+        nl = rnd.choice(["\n", "\r", "\n", "\x0b", "\u2028"])
+        s = s + nl if rnd.random() < 0.7 else nl + s
     return s
 
 
@@ -153,7 +157,7 @@ def rnd_step(rnd, ops=TEXT_OPS, surrogate_p=0.0, typed=False, encoded_p=0.0):
     if op == "with_host":
         return {"op": op, "v": T(rnd.choice(["example.org", "EXAMPLE.org", "bücher.example", "1.2.3.4", "::1", "[::1]",
                                              "fe80::1%eth0", "a_b", "a b", "a/b", "a@b", "a:b", "", "é", "h.", "%41", "a%zz",
-                                             "2001:DB8::0:1", "1.2.3.999", "xn--bcher-kva.example", "℀"]))}
+                                             "2001:DB8::0:1", "1.2.3.999", "xn--bcher-kva.example", "℀", "v2.example.com", "vad.example.org", "v1.x"]))}
     if op == "with_scheme":
         return {"op": op, "v": T(rnd.choice(["http", "https", "HTTP", "ws", "ftp", "x", "", "file", "mailto", "1a", "a b"]))}
     if op == "with_port":
